@@ -35,6 +35,7 @@ func checkC04(r *Report, p *Program) {
 	claimToleranceConverse(r, p, "R04.12")
 	matchIsSelectorOnly(r, p, "R04.13")
 	lastAppliedIsHookAnswer(r, p, "R04.14")
+	rmwAddressedByObjectNamespace(r, p, "R04.15")
 }
 
 // listersListEverything: the controllers list their caches unfiltered and leave the
